@@ -21,6 +21,14 @@ const jitPath = modPath + "/pkg/jit"
 const compilerPath = modPath + "/pkg/compiler"
 
 func runC15(c *Ctx) {
+	c15Extra(c)
+	// The JIT's higher tiers are the optimiser: "behaves exactly like a fresh baseline compilation" needs the optimiser's
+	// fact discipline. The corresponding C03 rule sets are evaluated here under C15-R9 (same constructs).
+	c.ruleAlias = map[string]string{"C03-R7": "C15-R9", "C03-R8": "C15-R9", "C03-R9": "C15-R9"}
+	c03Aliasing(c)
+	c03Kill(c)
+	c03Keys(c)
+	c.ruleAlias = nil
 	c.rule("C15-R8", "PAIR: every Lock/RLock in pkg/jit is released on every path to a return")
 	c.Sites["C15-R8#acquire-sites"] = lockReleaseAudit(c, "C15-R8", []string{"pkg/jit"})
 	c.floor("C15-R8", 10)
@@ -309,4 +317,84 @@ func runC15(c *Ctx) {
 			}
 		})
 	}
+}
+
+
+func c15Extra(c *Ctx) {
+	jitPkg := "pkg/jit"
+	c.rule("C15-R10", "TYPESTATE/IMMUT: (a) an invalidated specialisation is never made valid again while it still holds the code compiled before the invalidation: IsValid=true is stored only into a specialisation allocated in that function, or together with a new Bytecode for the same object; (b) bytecode that has been stored in a cache entry is immutable: no append onto / copy into / element store through a slice loaded from CompilationUnit.Bytecode or TypeSpecialization.Bytecode - callers and running VMs hold those bytes")
+	nValid, nUse := 0, 0
+	for _, fn := range c.srcFuncs(jitPkg) {
+		k := 0
+		eachInstr(fn, func(b *ssa.BasicBlock, _ int, ins ssa.Instruction) {
+			st, ok := ins.(*ssa.Store)
+			if !ok || !isStoreToField(st, "TypeSpecialization", "IsValid") || !isConstBool(st.Val, true) {
+				return
+			}
+			nValid++
+			if isFreshAlloc(st.Addr) {
+				return
+			}
+			base := st.Addr.(*ssa.FieldAddr).X
+			withCode := false
+			eachInstr(fn, func(b2 *ssa.BasicBlock, _ int, x ssa.Instruction) {
+				if s2, ok := x.(*ssa.Store); ok && isStoreToField(s2, "TypeSpecialization", "Bytecode") && b2 == b {
+					if fa, ok := s2.Addr.(*ssa.FieldAddr); ok && (fa.X == base || sameVal(fa.X, base)) {
+						withCode = true
+					}
+				}
+			})
+			k++
+			c.ob("C15-R10", fnKey(fn)+"#revalidated-only-with-new-code-"+itoa(k), st.Pos(), withCode, "an existing (possibly invalidated) specialisation is marked valid again without its Bytecode being replaced in the same step: the next cache hit serves the code compiled before the invalidation")
+		})
+		// (b)
+		isCachedCode := func(v ssa.Value) bool {
+			return derivesFromOnlySlicing(v, func(x ssa.Value) bool {
+				if !(loadedFromField(x, "CompilationUnit", "Bytecode") || loadedFromField(x, "TypeSpecialization", "Bytecode")) {
+					return false
+				}
+				// a unit allocated right here (the copy GetUnit returns) is not a cache entry
+				return !isFreshAlloc(x.(*ssa.UnOp).X)
+			})
+		}
+		m := 0
+		eachInstr(fn, func(_ *ssa.BasicBlock, _ int, ins ssa.Instruction) {
+			switch x := ins.(type) {
+			case *ssa.Call:
+				if b, ok := x.Call.Value.(*ssa.Builtin); ok && (b.Name() == "append" || b.Name() == "copy") && len(x.Call.Args) > 0 {
+					nUse++
+					if isCachedCode(x.Call.Args[0]) {
+						m++
+						c.ob("C15-R10", fnKey(fn)+"#cached-bytecode-not-written-"+itoa(m), x.Pos(), false, b.Name()+" writes into the backing array of bytecode that is stored in a cache entry and has been handed out (CompileRoute returns the cached slice; a VM may be executing it): an in-flight request sees its program rewritten with a differently laid-out one")
+					}
+				}
+			case *ssa.Store:
+				if ia, ok := x.Addr.(*ssa.IndexAddr); ok && isCachedCode(ia.X) {
+					m++
+					c.ob("C15-R10", fnKey(fn)+"#cached-bytecode-not-written-"+itoa(m), x.Pos(), false, "an element of cached bytecode is overwritten in place")
+				}
+			}
+		})
+	}
+	c.Sites["C15-R10#IsValid-true-stores"] = nValid
+	c.Sites["C15-R10#append-copy-sites-examined"] = nUse
+	c.ob("C15-R10", jitPkg+"#cached-code-immutable-and-not-revived", token.NoPos, nValid > 0, "no store of IsValid=true found: the specialisation typestate is not where the rule expects it")
+}
+
+// derivesFromOnlySlicing: v is a value satisfying pred, or a slice expression / conversion of one.
+func derivesFromOnlySlicing(v ssa.Value, pred func(ssa.Value) bool) bool {
+	for d := 0; d < 6 && v != nil; d++ {
+		if pred(v) {
+			return true
+		}
+		switch x := v.(type) {
+		case *ssa.Slice:
+			v = x.X
+		case *ssa.ChangeType:
+			v = x.X
+		default:
+			return false
+		}
+	}
+	return false
 }
